@@ -102,8 +102,7 @@ Example C01_example :
   snd (spec_create_dir (abs s) [[97%N]; [98%N]]) = KOk /\ snd (spec_remove_file (abs s) [[120%N]]) = KNotFound.
 Proof.
   cbn zeta. split; [|vm_compute; auto].
-  apply mem_step_wf; [apply wf_new|]. cbn. intros d H. unfold mem_new in H.
-  apply lookup_singleton_Some in H as [_ <-]. reflexivity.
+  apply mem_step_wf; [apply wf_new|exact I].
 Qed.
 
 Print Assumptions C01_create_dir.
